@@ -182,6 +182,10 @@ pub struct FnSpec {
     pub via_template: bool,
     /// parameter names (default a0, a1, ...)
     pub arg_names: Vec<String>,
+    /// other decoration around the cache attribute: 0 none, 1 doc comment above, 2 `#[inline]`
+    /// above, 3 `#[inline]` below, 4 doc comment between attribute and fn, 5 `#[allow(..)]`
+    /// above and doc below, 6 `pub(crate)` visibility
+    pub decor: u8,
 }
 
 impl FnSpec {
@@ -212,6 +216,7 @@ impl FnSpec {
             destructure: false,
             via_template: false,
             arg_names: Vec::new(),
+            decor: 0,
         }
     }
 
@@ -278,6 +283,7 @@ impl FnSpec {
             RetKind::ResultShort => "Result<String, String>",
             RetKind::ResultStd => "std::result::Result<String, String>",
             RetKind::ResultPathArgs => "Result<String, std::string::String>",
+            RetKind::ResultAlias => "Result<String>",
         }
     }
 
@@ -322,6 +328,9 @@ impl FnSpec {
             parts.push(format!("&{n} as &dyn Enc"));
         }
         let indent = if self.receiver != Receiver::None { "    " } else { "" };
+        if self.ret == RetKind::ResultAlias {
+            let _ = writeln!(out, "pub mod al_{} {{\nuse super::*;\n#[allow(dead_code)]\npub type Result<T> = std::result::Result<T, String>;", self.fn_name);
+        }
         if self.receiver != Receiver::None {
             out.push_str("impl UserS {\n");
         }
@@ -329,14 +338,36 @@ impl FnSpec {
             let tys: Vec<String> = (0..self.args.len()).map(|i| format!("$t{i}:ty")).collect();
             let _ = writeln!(out, "macro_rules! __tmpl_{} {{\n    ($ret:ty{}{}) => {{", self.fn_name, if tys.is_empty() { "" } else { ", " }, tys.join(", "));
         }
+        match self.decor {
+            1 => {
+                let _ = writeln!(out, "{indent}/// Documented before the cache attribute.");
+            }
+            2 => {
+                let _ = writeln!(out, "{indent}#[inline]");
+            }
+            5 => {
+                let _ = writeln!(out, "{indent}#[allow(clippy::too_many_arguments, unused_variables)]");
+            }
+            _ => {}
+        }
         if attrs.is_empty() {
             let _ = writeln!(out, "{indent}#[{mac}]");
         } else {
             let _ = writeln!(out, "{indent}#[{mac}({attrs})]");
         }
+        match self.decor {
+            3 => {
+                let _ = writeln!(out, "{indent}#[inline]");
+            }
+            4 | 5 => {
+                let _ = writeln!(out, "{indent}/// Documented between the cache attribute and the item.");
+            }
+            _ => {}
+        }
         let _ = writeln!(
             out,
-            "{indent}pub {}fn {}({}) -> {} {{",
+            "{indent}pub{} {}fn {}({}) -> {} {{",
+            if self.decor == 6 && self.receiver == Receiver::None { "(crate)" } else { "" },
             if is_async { "async " } else { "" },
             self.fn_name,
             params.join(", "),
@@ -359,6 +390,9 @@ impl FnSpec {
             let _ = writeln!(out, "    }};\n}}\n__tmpl_{}!({}{}{});", self.fn_name, self.ret_text(), if tys.is_empty() { "" } else { ", " }, tys.join(", "));
         }
         if self.receiver != Receiver::None {
+            out.push_str("}\n");
+        }
+        if self.ret == RetKind::ResultAlias {
             out.push_str("}\n");
         }
         out.push('\n');
@@ -420,7 +454,7 @@ impl FnSpec {
             });
         }
         let callee = if self.receiver == Receiver::None {
-            format!("{}({})", self.fn_name, call_args.join(", "))
+            format!("{}{}({})", if self.ret == RetKind::ResultAlias { format!("al_{}::", self.fn_name) } else { String::new() }, self.fn_name, call_args.join(", "))
         } else {
             let _ = writeln!(out, "            #[allow(unused_mut)] let mut __r = {};", TyD::UStruct.conv("recv.expect(\"receiver\")", 0));
             format!("__r.{}({})", self.fn_name, call_args.join(", "))
@@ -632,6 +666,7 @@ pub fn static_corpus() -> Vec<FnSpec> {
             let i = id();
             let mut s = FnSpec::new(i, &format!("key_{}_{:02}_{:04}", fl_tag(fl), k, i), "key", fl);
             s.args = shape.clone();
+            s.decor = (k % 7) as u8;
             v.push(s);
         }
     }
@@ -891,6 +926,32 @@ pub fn static_corpus() -> Vec<FnSpec> {
             }
         }
     }
+    // Result through a one-parameter alias named `Result` (free functions only)
+    for &fl in &flavours {
+        for k in 0..2 {
+            let i = id();
+            let mut s = FnSpec::new(i, &format!("res_alias_{}_{:04}", fl_tag(fl), i), "res", fl);
+            s.ret = RetKind::ResultAlias;
+            if k == 1 {
+                s.limit = Some(2);
+                s.policy = Some(Policy::Lru);
+            }
+            v.push(s);
+        }
+    }
+    // names that are odd as strings: everything keyed by name must use them verbatim
+    for (k, nm) in ["r#type", "r#", "#x", "a|b", " lead", "trail ", "UPPER_lower", "\u{fc}n\u{ef}", "q\"uote", "::", "_", "1", "tab\there", "a/very/long/name/that/goes/on/and/on/and/on/and/on/and/on/and/on/and/on/and/on/for/quite/a/while/0123456789"].iter().enumerate() {
+        for &fl in &[Flavour::Global, Flavour::Async] {
+            let i = id();
+            let mut s = FnSpec::new(i, &format!("oddname_{}_{:02}_{:04}", fl_tag(fl), k, i), "oddname", fl);
+            s.name = Some(format!("{}{}", nm, if fl == Flavour::Async { "~a" } else { "" }));
+            s.tags = vec![format!("odd{}", k % 3)];
+            if k % 2 == 0 {
+                s.limit = Some(3);
+            }
+            v.push(s);
+        }
+    }
     // parameters with everyday names (an identifier the expansion introduces must never capture one)
     {
         let sets: [&[&str]; 10] = [
@@ -1095,7 +1156,9 @@ pub fn random_spec(r: &mut Rng, id: u32, registry_mode: bool) -> FnSpec {
         s.frequency_weight = Some((t.to_string(), v));
     }
     if r.chance(1, 4) {
-        s.name = Some(format!("n19_{}", id));
+        // names are arbitrary strings: plain ones and ones that are odd as strings (kept unique by the id)
+        let odd = ["n19_", "r#n", "r#", "#", "a|b ", " lead", "\u{fc}n\u{ef}", "q\"uote", "::", "_", "1", "UPPER_"];
+        s.name = Some(format!("{}{}", odd[if r.chance(1, 2) { 0 } else { r.below(odd.len() as u64) as usize }], id));
     }
     let pool = ["q0", "q1", "q2", "q3", "q4", "q5"];
     let mut pick = |r: &mut Rng, p: u64| -> Vec<String> {
@@ -1121,6 +1184,7 @@ pub fn random_spec(r: &mut Rng, id: u32, registry_mode: bool) -> FnSpec {
             0 => RetKind::ResultShort,
             1 => RetKind::ResultStd,
             2 => RetKind::ResultPathArgs,
+            3 if s.receiver == Receiver::None => RetKind::ResultAlias,
             _ => RetKind::Plain,
         };
         s.receiver = match r.below(9) {
@@ -1138,6 +1202,7 @@ pub fn random_spec(r: &mut Rng, id: u32, registry_mode: bool) -> FnSpec {
     s.explicit_global_scope = flavour == Flavour::Global && r.chance(1, 4);
     s.attr_rotation = r.below(8) as usize;
     s.destructure = r.chance(1, 3);
+    s.decor = if r.chance(1, 2) { r.below(7) as u8 } else { 0 };
     s
 }
 
